@@ -302,4 +302,23 @@ theorem c14_cluster_and_index_headers_follow_source :
   · intro a b c fd k nm
     simp [Generated.indexTailWrites, Generated.indexHeaderPar]
 
+/-- **The layout header follows the source** (`gen_propertyHeader`): for every property kind the creator
+    writes, the header bytes of the writer model are the byte image of the writes of
+    `Property::serialize` (`creator/directory_pack/layout/property.rs`) translated on every run — the
+    `SrcProperty` type it is stated over is itself generated from the Rust `enum Property` (variants and
+    field order), the key-type constants from `enum PropType`. -/
+theorem c14_property_header_follows_source (p : RawProp) (src : Generated.SrcProperty)
+    (hs : p.toSrc = some src) (hw : p.HeaderWF) :
+    p.encode = writesBytes (Generated.propertyWrites src) :=
+  gen_propertyHeader p src hs hw
+
+/-- non-vacuity: an unsigned 2-byte column stored as a default, a content address with 2-byte pack ids
+    and an array with a 3-byte inline prefix whose remainder sits in value store 1 -/
+example :
+    (RawProp.mk 0 [120] (.uint 2 (some 513))).toSrc = some (.unsignedInt 2 (some 513) [120]) ∧
+    (RawProp.mk 0 [120] (.uint 2 (some 513))).HeaderWF ∧
+    (RawProp.mk 3 [99] (.content 2 1 none)).HeaderWF ∧
+    (RawProp.mk 6 [97] (.array (some 1) 3 (some (2, 1)) none)).HeaderWF := by
+  refine ⟨rfl, ?_, ?_, ?_⟩ <;> simp [RawProp.HeaderWF]
+
 end Jubako
